@@ -37,7 +37,8 @@ CHECKS = {
     "C04": dict(category="other", design_ref="§5 C04",
         text=("For every PUSH/POP/CALL/RET form and shape: each stack access is at the architectural offset from the entry RSP and of "
               "the architectural size (iced used_memory), RSP moves by stack_pointer_increment, CALL stores the return address, no other "
-              "store happens, RET's sentinel compares the slot it reads. Offsets are decided symbolically in an affine normal form, so "
+              "store happens, RET's sentinel compares the slot it reads and the normal-finish signal is raised only where that comparison "
+              "holds. Offsets are decided symbolically in an affine normal form, so "
               "the verdict holds for all RSP values. The pinned one-slot shift is reported as 13 known findings."),
         technique=AI + " + affine normal form of addresses; oracle: iced-x86 stack tables"),
     "C05": dict(category="other", design_ref="§5 C05",
@@ -70,8 +71,9 @@ CHECKS = {
         text=("3 raw accessors x 8 permission masks: area bytes are touched iff the mask has READ/WRITE/EXEC (exhaustive); a denied "
               "access returns Err and touches nothing; only the gated accessors, lifecycle functions, mem_prot and the renderer project "
               "MemoryArea.data/.access (who-may-touch over all MIR bodies, field privacy); constructor and ELF loader apply R|X / "
-              "elf_flags_to_prot(p_flags) on every path; elf_flags_to_prot is the R/W/X permutation for all 8 inputs; mem_prot stores "
-              "only the matching area's mask after the <=7 guard."),
+              "elf_flags_to_prot(p_flags) on every path (the constructor by the final mask of the pushed code area, the loader by the "
+              "interpreted paths shared with C15); elf_flags_to_prot is the R/W/X permutation for all 8 inputs x every other p_flags "
+              "bit; mem_prot stores only the matching area's mask after the <=7 guard; a resize keeps the area's mask."),
         technique="abstract interpretation per permission mask (A4) + who-may-touch over resolved MIR places (A1) + must-pass-through on the loader CFG"),
     "C10": dict(category="other", design_ref="§5 C10",
         text=("Order-type enumeration over (new.start, new.end, old.start, old.end): creation passes only disjoint requests, resize "
@@ -105,14 +107,16 @@ CHECKS = {
         text=("The per-call transfer functions of the three pipe closures, decided over an abstract model of the descriptor maps and of "
               "byte vectors (segment normal forms): read (per class count <, =, > available) delivers B[..m], leaves B[m..] under the "
               "same key and returns m; write leaves B ++ guest bytes (or the guest bytes) under write_ends[fd] and returns count; "
-              "pipe() creates inverse end entries, an empty buffer and hands [R, W] to the guest; other syscalls / descriptors are left "
+              "pipe() creates inverse end entries, an empty buffer and hands [R, W] to the guest; a failing guest memory access leaves "
+              "every map entry as it was; other syscalls / descriptors are left "
               "Unhandled with nothing touched. FIFO order over interleavings follows by induction, which is not mechanised."),
         technique=AI + " of the hook closures over abstract maps and byte-sequence normal forms, with a comparison oracle per count class"),
     "C15": dict(category="other", design_ref="§5 C15",
         text=("from_binary is interpreted with the elf crate and the memory API as primitives: RIP := e_entry; PT_LOAD areas at p_vaddr "
               "hold, as a byte-sequence expression, segment_data(segment) over a zero base sized from p_memsz only (or the file bytes "
               "alone when the rounded p_memsz is tied to p_filesz); the rounded size lies in [p_memsz, next page] for all 4096 residues; "
-              "mem_prot(p_vaddr, permutation of p_flags) per flag class; symbols keyed by st_value, named by strtab.get(st_name), undefined skipped. "
+              "mem_prot(p_vaddr, permutation of p_flags) evaluated per class of p_flags; headers that are not PT_LOAD change nothing they "
+              "did not create; symbols keyed by st_value, named by strtab.get(st_name), undefined skipped. "
               "Byte equality of the image for all files is declined."),
         technique=AI + " of the loader with header fields as symbolic leaves"),
     "C16": dict(category="other", design_ref="§5 C16",
@@ -129,9 +133,10 @@ CHECKS = {
         technique=AI + " with precise loop unrolling before widening + affine normal form"),
     "C18": dict(category="other", design_ref="§5 C18",
         text=("Every control-flow handler records exactly one trace entry of the matching variant with the value it stores to RIP "
-              "(CALL pushes, RET pops the call stack; untaken paths record nothing); add_trace's level/run-length bookkeeping for all 12 "
+              "(CALL pushes, RET pops the call stack; untaken and faulting transfers record nothing); add_trace's level/run-length bookkeeping for all 12 "
               "(new, last) variant classes; renderers contain no signed->usize cast feeding an allocation without a guard and no "
-              "unguarded overflow check on the nesting level. Text equality with a golden rendering is declined."),
+              "unguarded overflow check on the nesting level or on a vector length in trace()/call_stack() (path triage). Text equality "
+              "with a golden rendering is declined."),
         technique=AI + " per variant class; MIR dataflow for signed-cast allocation sinks over the renderer cone"),
     "C19": dict(category="other", design_ref="§5 C19",
         text=("Inventory form: all diverging sites in the cone of step (769 bodies) are classified by macro back-trace (by-design "
@@ -145,7 +150,8 @@ CHECKS = {
         text=("No nondeterminism source other than the documented ones can reach state, traces or error texts: callers of rand are "
               "exactly the two seeding functions (feeding only registers/xmm_registers, called only by the constructor) and the pipe() "
               "hook; RandomState map iteration only in the debug renderers, outside the observable cone; no time/env/pid/address source; "
-              "every handler reads only its operands and architecturally implicit registers, step reads only RIP. "
+              "every handler reads only its operands and architecturally implicit registers, step and the cone that builds error texts "
+              "and traces read only RIP. "
               "Equality of two whole runs is declined."),
         technique="nondeterminism-source taint over the resolved call graph (A11) + register-read sets from abstract interpretation vs iced-x86 implicit registers"),
 }
